@@ -143,8 +143,10 @@ def main(tier, seed):
         rng.shuffle(pool2i)
         pool2, pool2i = pool2[:220], pool2i[:80]
     else:
+        rng.shuffle(pool2)
+        rng.shuffle(pool2i)
         rng.shuffle(pool3)
-        pool3 = pool3[:6000]
+        pool2, pool2i, pool3 = pool2[:2000], pool2i[:800], pool3[:1500]
     for i, f in enumerate(pool2):
         systems.append(from_fam(f, f"fam2-{i}"))
     for i, f in enumerate(pool2i):
@@ -325,10 +327,10 @@ def main(tier, seed):
                 "family_systems_replayed_into_polar": len(systems) - len(fixed),
                 "fixed_family_systems": len(fixed), "solver_modes_exact": MODES_EXACT, "solver_modes_numeric": MODES_NUMERIC,
                 "N": N, "traces_with_failures": nfail, "replay_mismatches": replay_mismatch,
-                "exhaustive": (not quick), **stats_n}
+                "exhaustive": False, **stats_n}
     return run.finish(coverage, [
         "order bound: an exact closed form for a k-dimensional system agreeing with A^n v at n = 0..N with N >= 2k+1+(number of listed special cases) agrees for all n",
         "rounded (numeric root) results are allowed a deviation of (|truth|+1) * eps * 1e4 * (n+1)^2",
         "sympy evaluates the closed forms; irrational expressions that do not simplify to a rational are compared through a 1e-40 relative enclosure of their 60-digit evaluation",
-        "quick tier replays a seeded sample of the TLC-enumerated families, thorough tier all 2x2 systems and 6000 of the 3x3 ones",
+        "quick tier replays a seeded sample of the TLC-enumerated families, thorough tier a seeded sample of 2000 + 800 of the 2x2 systems and 1500 of the 3x3 ones",
     ])
